@@ -340,6 +340,18 @@ class WorkflowRecovery:
                                 task_type=stage.type,
                             )
                         )
+                elif not_started_tasks and not self._before_stages_complete(stage, full_workflow):
+                    # A stage whose STAGE_BEFORE children have not all finished
+                    # is RUNNING with every task NOT_STARTED in a perfectly
+                    # healthy run: ContinueParentStage starts its first task
+                    # once the last before-stage completes. Starting the task
+                    # from here would run it ahead of (or alongside) the
+                    # before-stages. The unfinished before-stages are in
+                    # stages_to_requeue themselves and are recovered there.
+                    logger.debug(
+                        "Skipping StartTask recovery for stage %s - before-stages not complete",
+                        stage.id,
+                    )
                 elif not_started_tasks and stage.start_time is not None:
                     first_task = not_started_tasks[0]
                     # Mirror the running-task guard: skip if a message for this
@@ -421,6 +433,29 @@ class WorkflowRecovery:
                 return True
 
         return False
+
+    def _before_stages_complete(self, stage: StageExecution, workflow: Workflow) -> bool:
+        """Check that every STAGE_BEFORE child of a stage has finished.
+
+        Same condition ContinueParentStageHandler requires before it starts the
+        parent's first task: all before-stages are in CONTINUABLE_STATUSES.
+        A stage without before-stages trivially satisfies it.
+
+        Args:
+            stage: The (parent) stage to check
+            workflow: The full workflow containing all stages
+
+        Returns:
+            True if the stage's own tasks are allowed to start
+        """
+        from stabilize.models.stage import SyntheticStageOwner
+        from stabilize.models.status import CONTINUABLE_STATUSES
+
+        return all(
+            child.status in CONTINUABLE_STATUSES
+            for child in workflow.stages
+            if child.parent_stage_id == stage.id and child.synthetic_stage_owner == SyntheticStageOwner.STAGE_BEFORE
+        )
 
     def _can_start(self, stage: StageExecution, workflow: Workflow) -> bool:
         """Check if a stage's dependencies are met and it can start.
